@@ -29,7 +29,31 @@ let table : (string * schema) list = [
   "BootstrapWitnesses", bootstrapWitnesses; "TransactionWitnessSet", transactionWitnessSet depth;
   "Transaction", transaction depth; "VRFCert", vRFCert; "OperationalCert", operationalCert;
   "HeaderBody", headerBody; "Header", header; "HeaderBodyPraos", headerBodyPraos; "HeaderPraos", headerPraos;
-  "Block", block depth; "Int", intS ]
+  "Block", block depth; "Int", intS;
+  (* stand-alone members of the variant types and further public types *)
+  "BlockPraos", blockPraos depth; "StakeRegistration", stakeRegistration; "StakeDeregistration", stakeDeregistration;
+  "StakeDelegation", stakeDelegation; "PoolParams", poolParams; "PoolRegistration", poolRegistration;
+  "PoolRetirement", poolRetirement; "GenesisKeyDelegation", genesisKeyDelegation;
+  "MoveInstantaneousRewardsCert", moveInstantaneousRewardsCert; "VoteDelegation", voteDelegation;
+  "StakeAndVoteDelegation", stakeAndVoteDelegation; "StakeRegistrationAndDelegation", stakeRegistrationAndDelegation;
+  "VoteRegistrationAndDelegation", voteRegistrationAndDelegation;
+  "StakeVoteRegistrationAndDelegation", stakeVoteRegistrationAndDelegation; "CommitteeHotAuth", committeeHotAuth;
+  "CommitteeColdResign", committeeColdResign; "DRepRegistration", dRepRegistration; "DRepDeregistration", dRepDeregistration;
+  "DRepUpdate", dRepUpdate; "SingleHostAddr", singleHostAddr; "SingleHostName", singleHostName; "MultiHostName", multiHostName;
+  "Ipv4", ipv4; "Ipv6", ipv6; "URL", uRL; "DNSRecordAorAAAA", dNSName; "DNSRecordSRV", dNSName; "Committee", committee;
+  "ParameterChangeAction", parameterChangeAction; "HardForkInitiationAction", hardForkInitiationAction;
+  "TreasuryWithdrawalsAction", treasuryWithdrawalsAction; "NoConfidenceAction", noConfidenceAction;
+  "UpdateCommitteeAction", updateCommitteeAction; "NewConstitutionAction", newConstitutionAction;
+  "MetadataList", metadataList depth; "MetadataMap", metadataMap depth; "PlutusMap", plutusMap depth;
+  "ConstrPlutusData", constrPlutusData depth; "BigInt", bigInt; "Redeemer", redeemer depth; "RedeemerTag", redeemerTag;
+  "Language", language; "CostModel", costModel; "NetworkId", networkId; "Vkey", vkey; "AssetName", assetNameS;
+  "PlutusScript", plutusScriptBytes; "MIRToStakeCredentials", mIRToStakeCredentials;
+  "TransactionBodies", transactionBodies depth; "TransactionWitnessSets", transactionWitnessSets depth;
+  "TransactionUnspentOutput", transactionUnspentOutput depth ]
+
+(* stream (ii) types: the schema of the form the API builds (e.g. header bodies are always built in the Praos form) *)
+let api_table : (string * schema) list = [
+  "HeaderBody", headerBodyPraos; "Header", headerPraos; "Block", blockPraos depth; "ValueEmptyAssets", value ] @ table
 
 (* ---------- PRNG (SplitMix64) ---------- *)
 let st = ref 0L
@@ -114,9 +138,11 @@ let rec gen (s : schema) (size : int) : val0 =
   | SMapOf (lo, ord, k, v) ->
     let n = coll_len (int_of_n lo) size in
     let l = List.init n (fun _ -> (gen k (size - 2), gen v (size - 2))) in
-    let l = dedup_keys k l in
+    (* a Vec-backed map may repeat a key *)
+    let l = if ord = KMulti && below 3 = 0 then l @ (match l with (a, _) :: _ -> [(a, gen v (size - 2))] | [] -> []) else dedup_keys k l in
     let l = match ord with
       | KInsertion -> l
+      | KMulti -> l
       | KBytewise -> List.sort (fun (a, _) (b, _) -> cmp_bytes (enc k a) (enc k b)) l
       | KRewardAddr -> List.sort (fun (a, _) (b, _) -> cmp_bytes (reward_sort_key (enc k a)) (reward_sort_key (enc k b))) l in
     VMap l
@@ -141,6 +167,9 @@ let rec gen (s : schema) (size : int) : val0 =
       while not (writer_form (n_of_int id) !v) && !tries < 50 do v := gen s' (max size 1); incr tries done;
       !v
     end
+  | SArrOpt (fs, o) ->
+    let l = List.map (fun f -> gen f (size - 1)) (slist_to_list fs) in
+    if below 2 = 0 then VAlt (nat_of_int 0, VList l) else VAlt (nat_of_int 1, VList (gen o (size - 1) :: l))
   | SBBytes -> let len = (match below 8 with 0 -> 0 | 1 -> 1 | 2 -> 63 | 3 -> 64 | 4 -> 65 | 5 -> 128 | 6 -> 129 + below 100 | _ -> below 64) in
     VBytes (gen_bytes len)
 and dedup s' l =
@@ -194,6 +223,32 @@ let run_mode () = run_driver (fun toks impl ->
         | Err -> ("err", "na")
         | Panic -> ("panic", "na")
         | OutOfFuel -> ("outoffuel", "na")))
+  | ["api"; name; _plan; _seed] ->
+    (* stream (ii): the implementation's own bytes b (built through the public API) are fed to the model:
+       dec s b must accept all of b, the decoded value must be in the domain of the round-trip theorem and
+       re-encode to b.  The verdict is the round-trip statement evaluated on the implementation's results. *)
+    (match List.assoc_opt name api_table with
+     | None -> ("skip unmodelled-type", "na")
+     | Some s ->
+       (match impl with
+        | "ok" :: hb :: hre :: flags ->
+          let b = bytes_of_hex hb in
+          let model = (match dec s b with
+            | Ok (v, []) -> if wfv s v then (let re = hex_of_bytes (enc s v) in "ok " ^ re ^ " " ^ re) else "model-outside-domain"
+            | Ok (_, _) -> "model-trailing"
+            | Err -> "model-err" | Panic -> "model-panic" | OutOfFuel -> "model-outoffuel") in
+          let verdict = if hre = hb && flags = [] then "holds"
+            else if hre = hb && flags = ["selfcheck:eq-language"] && (name = "PlutusScript" || name = "PlutusScripts") then "fails:C01-plutus-script-language"
+            else "fails:-" in
+          (model, verdict)
+        | ["deerr"; hb] ->
+          let b = bytes_of_hex hb in
+          let model = (match dec s b with
+            | Ok (v, []) -> let re = hex_of_bytes (enc s v) in "ok " ^ re ^ " " ^ re
+            | _ -> "model-err") in
+          (model, "fails:-")
+        | ["panic"] -> ("model-nobytes", "fails:-")
+        | _ -> ("driver-badimpl", "na")))
   | ["bad_schema"; name] -> ("bad_schema", "fails:model-schema-" ^ name)
   | ["gen_invalid"; name; _] -> ("gen_invalid", "na")
   | _ -> ("driver-badcase", "na"))
